@@ -2284,7 +2284,7 @@ def scale_and_translate(scale=None, translate=None):
       Translation
     """
     M = np.eye(4)
-    if np.any(scale != 1):
+    if scale is not None and np.any(scale != 1):
         M[:3, :3] *= scale
     if translate is not None:
         M[:3, 3] = translate
